@@ -11,6 +11,7 @@ The window theorems say that the node IS not-ON at every tick of a countdown, fo
 import PrimaiteModel.Model.FilterPower
 import PrimaiteModel.Props.C06
 import PrimaiteModel.Gen.FilterPower
+import PrimaiteModel.Gen.FilterSenders
 namespace Primaite.FilterPower
 open Primaite Primaite.Filter Primaite.Cut
 
@@ -484,3 +485,26 @@ theorem C06_disabled_portsDown (n : PNode W) : PortsDown (disableAll n).view := 
   cases hi : (disableAll n).view.ifaces[q]? with
   | none => rfl
   | some i => exact disableAll_allDown n i (List.mem_of_getElem? hi)
+
+/-! ### the software layer: every emitter goes through the session manager -/
+
+/-- what a call site of the software layer may call to hand a payload to the network -/
+def sanctionedSend : List String := ["self.send", "super.send", "sm.send_payload", "sess.receive_payload", "parent_terminal.send"]
+
+set_option maxRecDepth 8000 in
+/-- **no side channel in the software layer (syntactic inventory, regenerated every run)**: EVERY call site under
+system/applications, system/services, software.py, core/software_manager.py that sends is `self.send` / `super().send` (→ `IOSoftware.send`),
+the software's OWN `software_manager.send_payload_to_session_manager`, its own session manager's `receive_payload_from_software_manager`
+(ARP, ICMP, NTP) or a connection's `parent_terminal.send`; `IOSoftware.send` only guards and calls the software manager, which only calls
+the session manager (whose single `send_frame` site and single `Frame(..)` construction are `Gen.Filter`'s); nothing there calls a
+frame-level method, a `send` on another receiver, or touches `network`, `get_node_by_hostname`, `nodes`, `links`, `airspace`,
+`_connected_node`, `_connected_link`, `endpoint_a/b` — so every emission of every application and service of A is a `localOp`
+(stamped with the outbound interface's own source, behind the interface-send layer), which is what the cut theorems quantify over -/
+theorem C06_gen_senders :
+    Gen.FilterSenders.sendSites.all (fun s => sanctionedSend.contains s.2) = true ∧
+    30 ≤ Gen.FilterSenders.sendSites.length ∧
+    Gen.FilterSenders.foreign = [] ∧
+    Gen.FilterSenders.chain =
+      ["IOSoftware.send: guard:not self._can_perform_action() | return:self.software_manager.send_payload_to_session_manager",
+       "SoftwareManager.send_payload_to_session_manager: return:self.session_manager.receive_payload_from_software_manager"] := by
+  decide
